@@ -362,6 +362,7 @@ def run(ctx):
     n = ctx.n(12, 160)
     for it in range(n):
         strat = ["filter", "fixedpoint", "fixedinterval"][it % 3]
+        core.release_jax(6)
         cfg, d, order = c02.random_config(ctx, strat, it // 3)
         field, u0s, t0 = c02.make_problem(ctx, cfg, d, order)
         for k in ("fact", "solver", "strategy"):
